@@ -13,7 +13,8 @@
      * the index argument of Frame.subframe (core.py:323-354) and
        Frame.subframe_from_probe_elements (core.py:356-410) is ANY numpy index: one
        integer, a list of (possibly negative, possibly repeated) integers, a slice
-       (None / negative start, stop, step), a boolean mask (array or list) — the np_idx of
+       (None / negative start, stop, step), a boolean mask (array or list; of the length of
+       the axis, or the EMPTY boolean array, which numpy accepts on any axis) — the np_idx of
        Model/ProbeOps.v, with Python's slice.indices;  the same index expression is used
        three times (np.arange(numelements)[idx], Probe.subprobe(idx), mapper[idx] = ...);
      * np.isin is membership (whatever the order / repetitions of the retained elements);
